@@ -62,6 +62,14 @@ Proof.
   intros y Hy. rewrite Rmult_1_l. apply Hpos. lra.
 Qed.
 
+(* COSPricer.density is the cosine series with the density numbers B_k on the window shifted by log_spot, divided by s *)
+Lemma cos_density_impl_eq n B a b x0 s : cos_density_impl n B a b x0 s = cos_density n B (a + x0) (b + x0) (ln s) / s.
+Proof.
+  unfold cos_density_impl, cos_density. cbv zeta. f_equal. apply sum_eq. intros k _. unfold cosk.
+  replace ((ln s - (a + x0)) * (INR k * PI / (b + x0 - (a + x0)))) with (INR k * PI / (b + x0 - (a + x0)) * (ln s - (a + x0))) by ring.
+  ring.
+Qed.
+
 (* ------------------------------------------------------------------ statements as they appear in Properties/C18.v *)
 Lemma cos_is_integral_all : forall uninit (A : nat -> R) a b n, b <> a ->
   (forall (g : R -> R) (V : nat -> R) c d,
